@@ -13,7 +13,9 @@ func init() {
 	rt.Register("c02", Run)
 }
 
-var burstPts = []Pt{{"m1", "a"}, {"m2", "b"}, {"m1", "b"}, {"m2", "a"}}
+// tagless points come after points of the same measurement that carry the tag
+// (a where() must decide on the point alone), and before ones that carry it again
+var burstPts = []Pt{{"m1", "a"}, {"m1", ""}, {"m2", "b"}, {"m2", ""}, {"m1", "b"}, {"m2", "a"}}
 
 // burst is the write step of the systematic enumeration: one WritePoints call
 // of four points (2 measurements x 2 tag values) for each of the four dbrps,
@@ -31,15 +33,90 @@ func burst(sync bool) []Op {
 
 // step of the systematic alphabet
 type step struct {
-	kind string // start|stop|delete|Ws|Wn
+	kind string // start|stop|delete|startfail|await|Ws|Wn|Wbig|Wk
 	t    string
+	key  int  // Wk: index into seriesKeys
+	n    int  // Wk: number of points
+	http bool // Wk: through the HTTP handler
 }
 
 func (s step) String() string {
+	if s.kind == "Wk" {
+		return fmt.Sprintf("Wk%d*%d", s.key, s.n)
+	}
 	if s.t != "" {
 		return s.kind + ":" + s.t
 	}
 	return s.kind
+}
+
+// seriesKeys: the eight (db, rp, measurement) series of the systematic part.
+type seriesKey struct {
+	d kapacitor.DBRP
+	m string
+}
+
+var seriesKeys = func() []seriesKey {
+	var ks []seriesKey
+	for _, d := range []kapacitor.DBRP{dA, dC, dB, dD} {
+		for _, m := range []string{"m1", "m2"} {
+			ks = append(ks, seriesKey{d, m})
+		}
+	}
+	return ks
+}()
+
+// keyWrite: n points of exactly one series in one call, and the forking goroutine is
+// waited for through the ingress statistics, so that NOTHING else (no fence point)
+// travels on the write stream between this write and the next one.
+func keyWrite(s step) Op {
+	k := seriesKeys[s.key]
+	tags := []string{"a", "", "b"}
+	op := Op{Kind: "write", DB: k.d.Database, RP: k.d.RetentionPolicy, HTTP: s.http, ISync: true}
+	for i := 0; i < s.n; i++ {
+		op.Pts = append(op.Pts, Pt{k.m, tags[i%len(tags)]})
+	}
+	return op
+}
+
+// routedKeys: the series under which a task of shape s is registered in the fork table.
+func routedKeys(s Shape) []int {
+	var out []int
+	for i, k := range seriesKeys {
+		for _, d := range s.DBRPs {
+			if d != k.d {
+				continue
+			}
+			for _, f := range s.Froms {
+				if f.Meas == "" || f.Meas == k.m {
+					out = append(out, i)
+					break
+				}
+			}
+			break
+		}
+	}
+	return out
+}
+
+// firstSubscriber: points of one series are forked BEFORE the task that will be the
+// first subscriber of that series (or of its db.rp) exists, then the task starts, then
+// more points of exactly that series follow with nothing else in between.  Delivery is
+// decided per point from the fork table as it is at that moment.
+func firstSubscriber(key int, neighbour bool) []step {
+	var h []step
+	if neighbour {
+		h = append(h, step{kind: "start", t: "t1"})
+	}
+	return append(h,
+		step{kind: "Wk", key: key, n: 2},
+		step{kind: "start", t: "t2"},
+		step{kind: "Wk", key: key, n: 3},
+		step{kind: "Wk", key: key, n: 2, http: true},
+		step{kind: "stop", t: "t2"},
+		step{kind: "Wk", key: key, n: 1},
+		step{kind: "start", t: "t2"},
+		step{kind: "Wk", key: key, n: 2})
 }
 
 // histories enumerates every operation sequence of exactly length n over
@@ -60,18 +137,18 @@ func histories(ids []string, n int, f func([]step)) {
 		for _, id := range ids {
 			if !exec[id] {
 				exec[id] = true
-				rec(append(h, step{"start", id}), writes)
+				rec(append(h, step{kind: "start", t: id}), writes)
 				exec[id] = false
 			} else {
 				exec[id] = false
-				rec(append(h, step{"stop", id}), writes)
-				rec(append(h, step{"delete", id}), writes)
+				rec(append(h, step{kind: "stop", t: id}), writes)
+				rec(append(h, step{kind: "delete", t: id}), writes)
 				exec[id] = true
 			}
 		}
-		rec(append(h, step{"Ws", ""}), writes+1)
+		rec(append(h, step{kind: "Ws", t: ""}), writes+1)
 		if len(h) < n-1 { // an unsynchronised burst as last step equals Ws (End waits)
-			rec(append(h, step{"Wn", ""}), writes+1)
+			rec(append(h, step{kind: "Wn", t: ""}), writes+1)
 		}
 	}
 	rec(nil, 0)
@@ -80,14 +157,14 @@ func histories(ids []string, n int, f func([]step)) {
 // interference: targeted two-task histories (beyond the exhaustive length in the quick tier)
 var interference = [][]step{
 	// the first four also run in the quick tier
-	{{"start", "t1"}, {"start", "t2"}, {"stop", "t1"}, {"Ws", ""}},
-	{{"start", "t1"}, {"start", "t2"}, {"Wn", ""}, {"delete", "t2"}, {"Ws", ""}},
-	{{"start", "t1"}, {"start", "t2"}, {"stop", "t2"}, {"start", "t2"}, {"Ws", ""}},
-	{{"start", "t1"}, {"startfail", "t2"}, {"Ws", ""}, {"start", "t2"}, {"Ws", ""}},
-	{{"start", "t1"}, {"start", "t2"}, {"delete", "t2"}, {"Ws", ""}},
-	{{"start", "t1"}, {"start", "t2"}, {"Wn", ""}, {"stop", "t1"}, {"Ws", ""}},
-	{{"start", "t2"}, {"start", "t1"}, {"delete", "t1"}, {"Wn", ""}, {"start", "t1"}, {"Ws", ""}},
-	{{"startfail", "t1"}, {"start", "t2"}, {"Wn", ""}, {"startfail", "t1"}, {"Ws", ""}},
+	{{kind: "start", t: "t1"}, {kind: "start", t: "t2"}, {kind: "stop", t: "t1"}, {kind: "Ws", t: ""}},
+	{{kind: "start", t: "t1"}, {kind: "start", t: "t2"}, {kind: "Wn", t: ""}, {kind: "delete", t: "t2"}, {kind: "Ws", t: ""}},
+	{{kind: "start", t: "t1"}, {kind: "start", t: "t2"}, {kind: "stop", t: "t2"}, {kind: "start", t: "t2"}, {kind: "Ws", t: ""}},
+	{{kind: "start", t: "t1"}, {kind: "startfail", t: "t2"}, {kind: "Ws", t: ""}, {kind: "start", t: "t2"}, {kind: "Ws", t: ""}},
+	{{kind: "start", t: "t1"}, {kind: "start", t: "t2"}, {kind: "delete", t: "t2"}, {kind: "Ws", t: ""}},
+	{{kind: "start", t: "t1"}, {kind: "start", t: "t2"}, {kind: "Wn", t: ""}, {kind: "stop", t: "t1"}, {kind: "Ws", t: ""}},
+	{{kind: "start", t: "t2"}, {kind: "start", t: "t1"}, {kind: "delete", t: "t1"}, {kind: "Wn", t: ""}, {kind: "start", t: "t1"}, {kind: "Ws", t: ""}},
+	{{kind: "startfail", t: "t1"}, {kind: "start", t: "t2"}, {kind: "Wn", t: ""}, {kind: "startfail", t: "t1"}, {kind: "Ws", t: ""}},
 }
 
 // allAppear: a history that never touches one of the tasks is a history of the
@@ -127,8 +204,8 @@ func bigWrites() []Op {
 // not stopped, next to healthy tasks sharing its fork keys: the survivors must
 // still receive every point.  "await" gives the failure time to reach the fork edge.
 var dyingNeighbour = [][]step{
-	{{"start", "t1"}, {"start", "t2"}, {"Ws", ""}, {"await", "t1"}, {"Ws", ""}, {"Ws", ""}},
-	{{"start", "t2"}, {"start", "t1"}, {"start", "t3"}, {"Ws", ""}, {"await", "t1"}, {"Wn", ""}, {"stop", "t1"}, {"Ws", ""}},
+	{{kind: "start", t: "t1"}, {kind: "start", t: "t2"}, {kind: "Ws", t: ""}, {kind: "await", t: "t1"}, {kind: "Ws", t: ""}, {kind: "Ws", t: ""}},
+	{{kind: "start", t: "t2"}, {kind: "start", t: "t1"}, {kind: "start", t: "t3"}, {kind: "Ws", t: ""}, {kind: "await", t: "t1"}, {kind: "Wn", t: ""}, {kind: "stop", t: "t1"}, {kind: "Ws", t: ""}},
 }
 
 func runHistory(w *World, t *rt.Trace, tasks map[string]Shape, h []step, mode string) {
@@ -139,6 +216,8 @@ func runHistory(w *World, t *rt.Trace, tasks map[string]Shape, h []step, mode st
 			for _, op := range burst(s.kind == "Ws") {
 				tr.Do(op)
 			}
+		case "Wk":
+			tr.Do(keyWrite(s))
 		case "Wbig":
 			for _, op := range bigWrites() {
 				tr.Do(op)
@@ -226,12 +305,12 @@ func Run(r *rt.Run) error {
 	tc := r.NewTrace("conc")
 
 	singleLen, pairLen, pairDeepLen, nPairsDeep, tripleLen, nTriples, tripleDeepLen, nTriplesDeep, nInterf := 4, 3, 4, 8, 4, 6, 0, 0, 4
-	nDyingReps := 1
+	nDyingReps, nFirstSubKeys, nRaceReps := 1, 2, 1
 	nRandom, nConc := 250, 150
 	if r.Thorough() {
 		singleLen, pairLen, pairDeepLen, nPairsDeep, tripleLen, nTriples, tripleDeepLen, nTriplesDeep, nInterf = 6, 4, 5, 10, 4, 30, 5, 3, len(interference)
 		nRandom, nConc = 2000, 1000
-		nDyingReps = 4
+		nDyingReps, nFirstSubKeys, nRaceReps = 4, 4, 3
 	}
 	count := 0
 	// every history for one task set; a stuck call skips the rest of the set
@@ -250,6 +329,36 @@ func Run(r *rt.Run) error {
 			count++
 		})
 	}
+	// first subscriber of a series: every shape x every series alone; next to every other shape for
+	// series the task is routed under (run first: the ingress scan walks every statistic of the process,
+	// and failed starts leak node statistics)
+	runFixed := func(t *rt.Trace, tasks map[string]Shape, h []step) {
+		ids := map[string]Shape{}
+		for _, st := range h {
+			if st.t != "" {
+				ids[st.t] = tasks[st.t]
+			}
+		}
+		key := histKey(ids, h)
+		if lab.run(key, func(w *World) { runHistory(w, t, ids, h, "seq") }) {
+			t.Distinct(key)
+			count++
+		}
+	}
+	for _, s := range catalogue {
+		for k := range seriesKeys {
+			runFixed(tx, map[string]Shape{"t2": s}, firstSubscriber(k, false))
+		}
+	}
+	for i, u := range catalogue {
+		for j, s := range catalogue {
+			rk := routedKeys(s)
+			for n := 0; n < nFirstSubKeys && n < len(rk); n++ {
+				runFixed(tx, map[string]Shape{"t1": u, "t2": s}, firstSubscriber(rk[(i+j+n)%len(rk)], true))
+			}
+		}
+	}
+	firstSub := count
 	// singles: every shape, every history
 	for _, s := range catalogue {
 		explore(t, map[string]Shape{"t1": s}, singleLen)
@@ -302,7 +411,7 @@ func Run(r *rt.Run) error {
 	// large compressed / chunked HTTP writes: everything acknowledged is delivered
 	for _, s := range catalogue {
 		tasks := map[string]Shape{"t1": s}
-		h := []step{{"start", "t1"}, {"Wbig", ""}}
+		h := []step{{kind: "start", t: "t1"}, {kind: "Wbig", t: ""}}
 		key := histKey(tasks, h)
 		if lab.run(key, func(w *World) { runHistory(w, tx, tasks, h, "seq") }) {
 			tx.Distinct(key)
@@ -328,6 +437,9 @@ func Run(r *rt.Run) error {
 	for i := 0; i < nConc; i++ {
 		lab.run("concurrent history", func(w *World) { runConcurrent(r, w, tc) })
 	}
+	races := runRaces(r, nRaceReps)
+	r.Extra["first_subscriber_histories"] = firstSub
+	r.Extra["backed_up_task_stop_races_in_child_processes"] = races
 	r.Extra["systematic_histories"] = systematic
 	r.Extra["random_histories"] = nRandom
 	r.Extra["concurrent_histories"] = nConc
@@ -347,9 +459,11 @@ func Run(r *rt.Run) error {
 	}
 	r.Finish(fmt.Sprintf("real TaskMaster; tasks are TICKscripts with |log().prefix('<task>/<k>') under every from(); "+
 		"every history of exactly the given length in which every task appears over {start,stop,delete} per task (only when applicable) + {burst and wait for fork, burst without waiting} "+
-		"(a burst = 4 WritePoints calls x 4 points over 4 dbrps x 2 measurements x 2 tag values, alternately Go API and HTTP /write) "+
+		"(a burst = 4 WritePoints calls x 6 points over 4 dbrps x 2 measurements x {tag a, tag b, no tag}, alternately Go API and HTTP /write) "+
 		"for every one of %d catalogue shapes alone (length %d), every unordered pair (%d pairs, length %d), %d seeded triples (length %d); "+
 		"targeted two-task histories of length 4-6 for every ordered pair (stop/delete/restart/failed start of one task, then write: the other task must get everything); "+
+		"first-subscriber histories (points of one series forked before its first subscriber exists, task started, more points of exactly that series with no fence in between; ingress statistics as quiescence) for every shape x 8 series and every ordered pair; "+
+		"a backed-up task (gated sink, 3 full edges) stopped/deleted while others receive, in child processes (a dead process is an outcome the specification rejects); "+
 		"a neighbour task that dies at run time (refused httpOut route) next to every catalogue shape sharing its fork keys; 60-point HTTP writes gzip/chunked; "+
 		"then seeded random histories (random shapes, 1-3 tasks, single writes incl. gzip/chunked HTTP bodies of up to 69 points, no-op stops, failed starts, dying tasks) and histories with a concurrent writer goroutine; "+
 		"non-trivial = history with at least one write, distinct by (task set, operation sequence)",
@@ -363,7 +477,7 @@ var (
 	rDBs   = []string{"d1", "d2"}
 	rRPs   = []string{"", "rp1", "rp2"}
 	rMeas  = []string{"m1", "m2", "m3"}
-	rTags  = []string{"a", "b"}
+	rTags  = []string{"a", "b", ""}
 	rDBRPs = []kapacitor.DBRP{dA, dB, dC, dD}
 )
 
@@ -390,7 +504,7 @@ func randomShape(r *rt.Run) Shape {
 			f.RP = pick(r, rRPs[1:])
 		}
 		if r.Rand.Intn(4) == 0 {
-			f.Pred = pick(r, rTags)
+			f.Pred = pick(r, []string{"a", "b", "?a", "?b"})
 		}
 		f.GB = r.Rand.Intn(5) == 0
 		s.Froms = append(s.Froms, f)
